@@ -112,6 +112,7 @@ func main() {
 	}
 	close(ch)
 	wg.Wait()
+	killProcesses()
 	out := bufio.NewWriterSize(of, 1<<20)
 	for _, r := range results {
 		out.Write(r)
